@@ -6,6 +6,7 @@ for h in $(git log --reverse --no-merges --format=%h main..$b); do
   s=$(git log -1 --format=%s $h)
   case "$s" in fix:*) ;; *) echo "SKIP (not fix:) $h $s"; continue;; esac
   # skip if an identical subject is already on main (cherry-picked earlier / lead's own fix merged into the branch)
+  if grep -Fq "$(echo "$s" | cut -c1-75)" /verif/tools/skip_subjects.txt; then echo "DUP-SKIP $h $s" | cut -c1-120; continue; fi
   if git log main --format=%s | grep -Fxq "$s"; then echo "HAVE $h $s" | cut -c1-120; continue; fi
   if git cherry-pick -x $h >/dev/null 2>&1; then echo "PICK $h $s" | cut -c1-140; else
     if git diff --cached --quiet && git diff --quiet; then git cherry-pick --skip >/dev/null 2>&1; echo "EMPTY $h $s" | cut -c1-120; else
